@@ -37,6 +37,13 @@ def apply(d, m):
     for e in edits:
         p = os.path.join(d, e["file"])
         s = open(p).read()
+        if "regex" in e:
+            import re as _re
+            s2, k = _re.subn(e["regex"], e["replace"], s)
+            if k == 0:
+                return "regex matched nothing in %s" % e["file"]
+            open(p, "w").write(s2)
+            continue
         n = s.count(e["find"])
         nth = e.get("nth")
         if n == 0:
@@ -96,7 +103,46 @@ def run_property(pid, only=None, keep=False):
     return res
 
 
+def run_benign(only=None):
+    """behaviour-preserving edits: every check must stay silent"""
+    ms = json.load(open(os.path.join(VERIF, "mutants", "benign.json")))
+    bad = 0
+    for m in ms:
+        if only and m["name"] != only:
+            continue
+        d = scratch_copy()
+        try:
+            err = apply(d, m)
+            if err:
+                print("benign %-40s not-applicable %s" % (m["name"], err), flush=True)
+                bad += 1
+                continue
+            ev = tempfile.mkdtemp(prefix="dgmut-ev-")
+            env = dict(os.environ, VERIF_REPO=d, VERIF_EVIDENCE_DIR=ev, VERIF_REPORT_DIR=ev, VERIF_FACTS_TAG="ben-")
+            env.setdefault("VERIF_CACHE_DIR", os.path.join(VERIF, ".cache", "selftest"))
+            r = subprocess.run([os.path.join(VERIF, "check"), m.get("props", "all")], env=env, capture_output=True, text=True)
+            shutil.rmtree(ev, ignore_errors=True)
+            alarms = [l.strip() for l in r.stdout.splitlines() if l.startswith("  C") and "|" in l]
+            if r.returncode == 2:
+                print("benign %-40s does-not-compile\n%s" % (m["name"], r.stderr[-800:]), flush=True)
+                bad += 1
+            elif r.returncode == 0:
+                print("benign %-40s silent" % m["name"], flush=True)
+            else:
+                bad += 1
+                print("benign %-40s FALSE-ALARM (%d)" % (m["name"], len(alarms)), flush=True)
+                for a in alarms[:25]:
+                    print("      " + a[:160], flush=True)
+        finally:
+            shutil.rmtree(d, ignore_errors=True)
+    print("benign edits that raised an alarm / failed: %d" % bad)
+    return 1 if bad else 0
+
+
 def main():
+    if "--benign" in sys.argv:
+        only = sys.argv[sys.argv.index("--only") + 1] if "--only" in sys.argv else None
+        return run_benign(only)
     args = [a for a in sys.argv[1:] if not a.startswith("--")]
     only = None
     if "--only" in sys.argv:
